@@ -197,3 +197,190 @@ def probe(build, ctx, depth=2):
                     changed = fingerprint(inst, ctx) != fp0
                     results.append({"field": f, "via": path, "mut": mlabel, "changed": changed, "raised": raised})
     return results
+
+
+# ---------------------------------------------------------------------------------------------------------
+# C19 additions (additive; the C04 probe above is unchanged): object-graph walking with `is`-identity,
+# deep snapshots of arbitrary argument objects, abstraction of an object graph to the cells of the Lean
+# heap model (Sem/Alias.lean), and the poke loop "apply every applicable native mutator to every mutable
+# object reachable from X and watch a fingerprint".
+# ---------------------------------------------------------------------------------------------------------
+import datetime
+import decimal
+import enum as _enum
+
+MUTABLE_TAGS = ("list", "dict", "set", "deque", "inst")
+
+
+def node_tag(o):
+    """tag of a container object in the heap abstraction; None for atoms (immutable leaves)"""
+    if isinstance(o, Structure):
+        return "inst"
+    if isinstance(o, collections.deque):
+        return "deque"
+    if isinstance(o, list):
+        return "list"
+    if isinstance(o, dict):
+        return "dict"
+    if isinstance(o, set):
+        return "set"
+    if isinstance(o, frozenset):
+        return "frozenset"
+    if isinstance(o, tuple):
+        return "tuple"
+    return None
+
+
+def children(o):
+    """(key, child) pairs of a container object, keys as strings ('*' under unordered containers)"""
+    if isinstance(o, Structure):
+        return [(str(k), v) for k, v in o.__dict__.items() if k not in dump.INTERNAL]
+    if isinstance(o, dict):
+        return [(str(k), v) for k, v in o.items()]
+    if isinstance(o, (set, frozenset)):
+        return [("*", v) for v in o]
+    if isinstance(o, (list, tuple, collections.deque)):
+        return [(str(i), v) for i, v in enumerate(o)]
+    return []
+
+
+def object_graph(root, max_nodes=5000):
+    """{id: (path, obj)} of every container object reachable from root (first path found, BFS)"""
+    seen = {}
+    queue = [((), root)]
+    while queue and len(seen) < max_nodes:
+        path, o = queue.pop(0)
+        if node_tag(o) is None or id(o) in seen:
+            continue
+        seen[id(o)] = (path, o)
+        for k, v in children(o):
+            queue.append((path + (k,), v))
+    return seen
+
+
+def shared_nodes(source, sink, mutable_only=True):
+    """paths (in `source`) of the container objects of `source` that are also reachable from `sink`"""
+    gs, gk = object_graph(source), object_graph(sink)
+    out = []
+    for i, (path, o) in gs.items():
+        if i in gk and (not mutable_only or node_tag(o) in MUTABLE_TAGS):
+            out.append(list(path))
+    return sorted(out)
+
+
+def heapify(root):
+    """object graph -> (cells, root item) for the Lean heap model: cells[addr] = [tag, [[key, item], ...]],
+    item = 0 (atom) | {"r": addr}"""
+    order = []
+    index = {}
+
+    def visit(o):
+        if node_tag(o) is None:
+            return
+        if id(o) in index:
+            return
+        index[id(o)] = len(order)
+        order.append(o)
+        for _, v in children(o):
+            visit(v)
+    visit(root)
+
+    def item(v):
+        return {"r": index[id(v)]} if id(v) in index and node_tag(v) is not None else 0
+    cells = [[node_tag(o), [[k, item(v)] for k, v in children(o)]] for o in order]
+    return cells, item(root)
+
+
+def deep_canon(o, _depth=0):
+    """deep, type-tagged, order-normalised snapshot of an arbitrary object (arguments, mappers, schemas …)"""
+    if _depth > 60:
+        return "<deep>"
+    if o is None or isinstance(o, (bool, int, str, bytes)):
+        return [type(o).__name__, o if not isinstance(o, bytes) else o.hex()]
+    if isinstance(o, float):
+        return ["float", repr(o)]
+    if isinstance(o, decimal.Decimal):
+        return ["Decimal", str(o)]
+    if isinstance(o, _enum.Enum):
+        return ["enum", type(o).__name__, o.name]
+    if isinstance(o, (datetime.date, datetime.time)):
+        return [type(o).__name__, o.isoformat()]
+    if isinstance(o, Structure):
+        return ["inst", type(o).__name__,
+                sorted(([k, deep_canon(v, _depth + 1)] for k, v in o.__dict__.items() if k not in dump.INTERNAL),
+                       key=lambda kv: kv[0])]
+    if isinstance(o, dict):
+        return [type(o).__name__ if type(o) is not dict else "dict",
+                sorted(([repr(deep_canon(k, _depth + 1)), deep_canon(v, _depth + 1)] for k, v in o.items()),
+                       key=lambda kv: kv[0])]
+    if isinstance(o, (set, frozenset)):
+        return [type(o).__name__, sorted(repr(deep_canon(v, _depth + 1)) for v in o)]
+    if isinstance(o, (list, tuple, collections.deque)):
+        return [type(o).__name__, [deep_canon(v, _depth + 1) for v in o]]
+    if isinstance(o, type):
+        return ["class", o.__name__]
+    if callable(o):
+        return ["callable", getattr(o, "__name__", type(o).__name__)]
+    d = getattr(o, "__dict__", None)
+    if isinstance(d, dict):
+        return ["obj", type(o).__name__, sorted(([k, deep_canon(v, _depth + 1)] for k, v in d.items()
+                                                 if not k.startswith("__")), key=lambda kv: kv[0])]
+    return ["opaque", type(o).__name__]
+
+
+def poke_attempts(obj):
+    """(label, thunk) for every native mutator applicable to obj — wrappers, plain containers, structures"""
+    if isinstance(obj, Structure):
+        return mutation_attempts(obj)
+    if isinstance(obj, set) and not isinstance(obj, frozenset):
+        out = []
+        for m, argsets in native_mutators_of(obj):
+            for args in argsets:
+                out.append((f"plain-set.{m}", lambda m=m, args=args: getattr(obj, m)(*args)))
+        return out
+    return mutation_attempts(obj)
+
+
+def poke_pass(visible_root, fingerprint, tried, limit=400):
+    """apply every not yet tried native mutator to every mutable object reachable from `visible_root`; after
+    each attempt compare `fingerprint()` with its value before.  Returns (path, mutator label) of the first
+    attempt that changed it (the caller then rebuilds the situation and calls again), or None."""
+    graph = object_graph(visible_root)
+    fp0 = fingerprint()
+    n = 0
+    for _, (path, o) in list(graph.items()):
+        if node_tag(o) not in MUTABLE_TAGS or (tuple(path), "*") in tried:
+            continue
+        for label, attempt in poke_attempts(o):
+            key = (tuple(path), label)
+            if key in tried:
+                continue
+            tried.add(key)
+            n += 1
+            if n > limit:
+                return None
+            try:
+                attempt()
+            except Exception:
+                pass
+            try:
+                fp1 = fingerprint()
+            except Exception as e:      # the protected object can no longer even be fingerprinted
+                fp1 = "fingerprint-raises:" + type(e).__name__
+            if fp1 != fp0:
+                return (list(path), label)
+    return None
+
+
+def poke_oracle(make, max_rounds=8, limit=400):
+    """make() -> (visible_root, fingerprint thunk) in a fresh situation.  Returns every (path, label) whose
+    poke changed the fingerprint (one fresh situation per detected change)."""
+    tried, changed = set(), []
+    for _ in range(max_rounds):
+        vis, fp = make()
+        hit = poke_pass(vis, fp, tried, limit)
+        if hit is None:
+            break
+        changed.append(hit)
+        tried.add((tuple(hit[0]), "*"))     # one witness per object is enough
+    return changed
